@@ -136,9 +136,11 @@ def build(p, e, topo, nfr, T, behaviours):
     return ref, sinks
 
 
-def topo_scenario(topo, nfr, free, fixed=None, behaviours=None, planted=None, horizon=30000, max_steps=3000):
+def topo_scenario(topo, nfr, free, fixed=None, behaviours=None, planted=None, horizon=None, max_steps=3000):
     """free: {param: (lo, hi)} symbolic timing parameters; fixed: {param: value}"""
     behaviours = behaviours or {}
+    if horizon is None:      # virtual time by which a healthy pipeline has certainly delivered everything
+        horizon = 3000 + (nfr + 1) * (sum(hi for _, hi in free.values()) + sum(v for v in (fixed or {}).values() if isinstance(v, int)))
     def scenario(e):
         T = dict(fixed or {})
         for k, (lo, hi) in free.items(): T[k] = e.fresh_int(k, lo, hi)
